@@ -498,13 +498,9 @@ Section Eq.
     - rewrite (term_eqb_den n _ _ i j H). apply (den_const K n x2 i j Hi Hj).
     - apply sum_term_eqb_den; assumption.
     - apply sden_perm. apply sum_eqb_perm; [apply distinct_nodup; exact Ha|apply distinct_nodup; exact Hb|exact H].
-    - rewrite (sden_perm n _ [const x2] i j).
-      + rewrite sden_single. apply (den_const K n x2 i j Hi Hj).
-      + apply sum_eqb_perm; [apply distinct_nodup; exact Ha|repeat constructor; intros []|exact H].
+    - rewrite (sum_term_eqb_den n _ _ i j Ha H). apply (den_const K n x2 i j Hi Hj).
     - rewrite (term_eqb_den n _ _ i j H). symmetry. apply (den_const K n x1 i j Hi Hj).
-    - rewrite (sden_perm n _ [const x1] i j).
-      + rewrite sden_single. symmetry. apply (den_const K n x1 i j Hi Hj).
-      + apply sum_eqb_perm; [apply distinct_nodup; exact Hb|repeat constructor; intros []|exact H].
+    - rewrite (sum_term_eqb_den n _ _ i j Hb H). symmetry. apply (den_const K n x1 i j Hi Hj).
     - apply keqb_sound in H. subst. reflexivity.
   Qed.
 
@@ -561,10 +557,7 @@ Proof.
   vm_compute in H. discriminate.
 Qed.
 
-Lemma eq_empty_sum_zero_counterexample :
-  @py_eq GQring gq_is_zero gq_eqb (OS []) (ON c0) = false /\
-  forall n, mat_eq (2 ^ n) (oden n (@OS GQring [])) (oden n (@ON GQring c0)).
-Proof.
-  split; [vm_compute; reflexivity|]. intros n i j _ _. cbn [oden]. unfold sden, nden, mscale. cbn [lsum].
-  destruct (eye i j) as [a b]. cbn. unfold gqmul, gq0. cbn [fst snd]. f_equal; ring.
-Qed.
+(* F33 (fixed): the empty sum compares equal to a number exactly when the number tests as zero *)
+Lemma eq_empty_sum_number (K : cring) (is_zero : K -> bool) (keqb : K -> K -> bool) (c : K) :
+  py_eq is_zero keqb (OS []) (ON c) = is_zero c /\ py_eq is_zero keqb (ON c) (OS []) = is_zero c.
+Proof. split; reflexivity. Qed.
